@@ -5,6 +5,7 @@ import (
 	"errors"
 	"fmt"
 	"io"
+	"math"
 
 	"github.com/lightningnetwork/lnd/tlv"
 )
@@ -691,6 +692,15 @@ func (fv *RawFeatureVector) decode(r io.Reader, length, width int) error {
 		byteIndex := int(i / width)
 		bitIndex := uint(i % width)
 		if (data[length-byteIndex-1]>>bitIndex)&1 == 1 {
+			// A FeatureBit is 16 bits wide: a higher position
+			// can't be represented and must not wrap around onto
+			// one of the low feature bits.
+			if i > math.MaxUint16 {
+				return fmt.Errorf("can't decode feature bit "+
+					"%d: %w %v", i, ErrFeatureBitMaximum,
+					math.MaxUint16)
+			}
+
 			fv.Set(FeatureBit(i))
 		}
 	}
